@@ -1,5 +1,6 @@
 import UvModel.DriverUtil
 import UvModel.Fault
+import UvModel.Adopt
 /-! line-protocol driver modes for C16 (model side of the per-operation fault correspondence)
 
 mode `c16ops`, one request per line:
@@ -9,6 +10,12 @@ mode `c16ops`, one request per line:
   `retry <n>`                                  → `attempts=<n+1> eintr-surfaced=false`   (retry loop after n interruptions)
 ops: write2 <nbufs> | udp_send <nbufs> <wasActive 0|1> | fs <async 0|1> <none|path|bufs> | queue_work | getaddrinfo |
      pipe_bind | spawn <npipes> <heap 0|1> | fs_poll_start | fs_event_start <newWd 0|1> | environ <n>
+
+mode `c16adopt` (adoption of a descriptor by a TCP handle with remembered options, lean/UvModel/Adopt.lean):
+  `points <path> <nodelay 0|1> <keepalive 0|1>`                     → `points <setsockopt option>…` in execution order
+  `run <path> <nodelay> <keepalive> fault none|<k> <errno>`         → `rc=<int> owns=<0|1> fds=<d>`
+                                                 (return code, whether the handle claims a descriptor, open-descriptor delta)
+paths: accept | ipc | open | bind | listen | connect
 -/
 namespace Drivers.C16
 open UvModel.DriverUtil UvModel.Fault
@@ -58,7 +65,41 @@ def step (_ : Unit) (ws : List String) : Unit × List String :=
     | none => ((), ["bad-op"])
   | _ => ((), ["bad-op"])
 
+open UvModel.Adopt in
+def parsePath : String → Option Path
+  | "accept" => some .accept | "ipc" => some .ipc | "open" => some .open_
+  | "bind" => some .bind | "listen" => some .listen | "connect" => some .connect
+  | _ => none
+
+def parseBool : String → Option Bool
+  | "0" => some false | "1" => some true | _ => none
+
+open UvModel.Adopt in
+def showAdopt (p : Path) (nd ka : Bool) (f : UvModel.Adopt.Fault) : String :=
+  -- descriptor 7 is adopted (open before on accept / ipc / open) or is the number socket() returns (lazy paths)
+  let pre : List Nat := if p = .accept ∨ p = .ipc ∨ p = .open_ then [0, 1, 2, 7] else [0, 1, 2]
+  let r := adopt streamOpen p nd ka ⟨pre, none⟩ 7 f
+  s!"rc={r.2} owns={if r.1.hfd.isSome then 1 else 0} fds={(r.1.open_.length : Int) - pre.length}"
+
+open UvModel.Adopt in
+def stepAdopt (_ : Unit) (ws : List String) : Unit × List String :=
+  match ws with
+  | [] => ((), [])
+  | ["points", p, nd, ka] =>
+    match parsePath p, parseBool nd, parseBool ka with
+    | some p, some nd, some ka => ((), [" ".intercalate ("points" :: sockoptCalls p nd ka)])
+    | _, _, _ => ((), ["bad-op"])
+  | ["run", p, nd, ka, "fault", "none"] =>
+    match parsePath p, parseBool nd, parseBool ka with
+    | some p, some nd, some ka => ((), [showAdopt p nd ka none])
+    | _, _, _ => ((), ["bad-op"])
+  | ["run", p, nd, ka, "fault", k, e] =>
+    match parsePath p, parseBool nd, parseBool ka, k.toNat?, e.toNat? with
+    | some p, some nd, some ka, some k, some e => ((), [showAdopt p nd ka (some (k, e))])
+    | _, _, _, _, _ => ((), ["bad-op"])
+  | _ => ((), ["bad-op"])
+
 /-- (mode name, action).  `uvdriver <mode>` runs the action (normally `runLines init step`). -/
-def modes : List (String × IO Unit) := [("c16ops", runLines () step)]
+def modes : List (String × IO Unit) := [("c16ops", runLines () step), ("c16adopt", runLines () stepAdopt)]
 
 end Drivers.C16
